@@ -1316,6 +1316,8 @@ impl LlamaExecutor {
         let prev_fc = state.get_reg(RegName::FC);
         let decoded = self.decode_with_prefix(entry, state, bus, pre, pc_override, prefix_len)?;
         let mut mvl_length: Option<u32> = None;
+        // Set once the MVL/MVLD element loop below has moved every element itself.
+        let mut mvl_moved = false;
         if matches!(entry.kind, InstrKind::Mvl | InstrKind::Mvld) {
             let length = state.get_reg(RegName::I) & mask_for(RegName::I);
             if length == 0 {
@@ -1376,6 +1378,7 @@ impl LlamaExecutor {
                     src_addr = Self::advance_internal_addr_signed(src_addr, src_step);
                     dst_addr = Self::advance_internal_addr_signed(dst_addr, dst_step);
                 }
+                mvl_moved = true;
             }
         }
         // Special-case RegPair-only move (e.g., opcode 0xFD)
@@ -1473,7 +1476,11 @@ impl LlamaExecutor {
             }
             .ok_or("missing mem operand")?;
             let (val, bits) = src_val.ok_or("missing source")?;
-            Self::store_traced(bus, mem.addr, bits, val);
+            // The block-move loop has already stored the first element; storing it again would
+            // re-read a source element the loop may have overwritten (overlapping runs).
+            if !mvl_moved {
+                Self::store_traced(bus, mem.addr, bits, val);
+            }
             if let Some((reg, new_val)) = mem.side_effect {
                 if !matches!(entry.kind, InstrKind::Mvl | InstrKind::Mvld) {
                     state.set_reg(reg, new_val);
